@@ -7,7 +7,7 @@ import Ogorek.Lemmas.CPickleSForms
 namespace Ogorek
 
 section
-variable {mc : MCfg} {hook : Hook}
+variable {mc : MCfg} {hook : Hook} {mz : Option PKey → Bool}
 
 theorem repGList_nil {cfg : Cfg} {n : Nat} {h : List HObj} {rs : List GoVal} (hr : RepGList cfg n h rs []) : rs = [] := by
   cases rs with
@@ -28,7 +28,7 @@ theorem protoOK_mod {p : Nat} {st : DState} (h : ProtoOK (ecfg p) st) : pybuilti
 
 /-- `save_bytes` with the memo, in all its forms. -/
 theorem saveBytesS_ok (p : Nat) (s s' : PSt) (key : Option PKey) (d b : Bytes)
-    (hkey : ∀ k, key = some k → valOf p k = .bytes d) (h : saveBytesS p s key d = some (b, s')) :
+    (hkey : ∀ k, key = some k → valOf p k = .bytes d) (h : saveBytesS mz p s key d = some (b, s')) :
     PushesG mc hook (ecfg p) (MemoInv p) b (.bytes d) s s' := by
   have hvp : ∀ (n : Nat) (hp : List HObj) (r : GoVal), RepG mc.cfg n hp r (.bytes d) → ∀ k, key = some k → r = valOf p k := by
     intro n hp r hr k hk
@@ -52,7 +52,7 @@ theorem saveBytesS_ok (p : Nat) (s s' : PSt) (key : Option PKey) (d b : Bytes)
       | none => simp [hcb] at h
       | some b0 =>
         simp only [hcb] at h
-        cases hput : putS p s key with
+        cases hput : putS mz p s key with
         | none => simp [hput] at h
         | some r =>
           obtain ⟨pb, s1⟩ := r
@@ -64,12 +64,12 @@ theorem saveBytesS_ok (p : Nat) (s s' : PSt) (key : Option PKey) (d b : Bytes)
       · have hd : d = [] := List.isEmpty_iff.mp hemp
         subst hd
         simp only [List.isEmpty_nil, if_true] at h
-        cases hg : saveGlobalS p s .gBytes (pybuiltinModuleE p) (sb "bytes") with
+        cases hg : saveGlobalS mz p s .gBytes (pybuiltinModuleE p) (sb "bytes") with
         | none => simp [hg] at h
         | some r1 =>
           obtain ⟨g, s1⟩ := r1
           simp only [hg] at h
-          cases hput : putS p s1 key with
+          cases hput : putS mz p s1 key with
           | none => simp [hput] at h
           | some r2 =>
             obtain ⟨pb, s2⟩ := r2
@@ -85,27 +85,27 @@ theorem saveBytesS_ok (p : Nat) (s s' : PSt) (key : Option PKey) (d b : Bytes)
               exact (C02_bytes_forms st.proto []).2.2.1)
             exact hred.put (putOK_S p s1 s2 key pb hput) hvp
       · simp only [hemp, Bool.false_eq_true, if_false] at h
-        cases hg : saveGlobalS p s .gEncode (sb "_codecs") (sb "encode") with
+        cases hg : saveGlobalS mz p s .gEncode (sb "_codecs") (sb "encode") with
         | none => simp [hg] at h
         | some r1 =>
           obtain ⟨g, s1⟩ := r1
           simp only [hg] at h
-          cases h1 : saveStrS p s1 none (latin1ToUtf8 d) with
+          cases h1 : saveStrS mz p s1 none none (latin1ToUtf8 d) with
           | none => simp [h1] at h
           | some r2 =>
             obtain ⟨b1, s2⟩ := r2
             simp only [h1] at h
-            cases h2 : saveStrS p s2 (some .sLatin1) (sb "latin1") with
+            cases h2 : saveStrS mz p s2 (some .sLatin1) (some .sLatin1) (sb "latin1") with
             | none => simp [h2] at h
             | some r3 =>
               obtain ⟨b2, s3⟩ := r3
               simp only [h2] at h
-              cases hpt : putS p s3 none with
+              cases hpt : putS mz p s3 none with
               | none => simp [hpt] at h
               | some r4 =>
                 obtain ⟨pt, s4⟩ := r4
                 simp only [hpt] at h
-                cases hput : putS p s4 key with
+                cases hput : putS mz p s4 key with
                 | none => simp [hput] at h
                 | some r5 =>
                   obtain ⟨pb, s5⟩ := r5
@@ -113,9 +113,9 @@ theorem saveBytesS_ok (p : Nat) (s s' : PSt) (key : Option PKey) (d b : Bytes)
                   obtain ⟨rfl, rfl⟩ := h
                   have hgv := saveGlobalS_ok (mc := mc) (hook := hook) p s s1 .gEncode (sb "_codecs") (sb "encode") g rfl
                     (by decide) (by decide) hg
-                  have hs1 := saveStrS_ok (mc := mc) (hook := hook) p s1 s2 none (latin1ToUtf8 d) b1 (fun _ hk => by cases hk) h1
-                  have hs2 := saveStrS_ok (mc := mc) (hook := hook) p s2 s3 (some .sLatin1) (sb "latin1") b2
-                    (fun k hk => by injection hk with hk; subst hk; rfl) h2
+                  have hs1 := saveStrS_ok (mc := mc) (hook := hook) p s1 s2 none none (latin1ToUtf8 d) b1 (fun _ hk => by cases hk) (fun _ hk => by cases hk) h1
+                  have hs2 := saveStrS_ok (mc := mc) (hook := hook) p s2 s3 (some .sLatin1) (some .sLatin1) (sb "latin1") b2
+                    (fun k hk => by injection hk with hk; subst hk; rfl) (fun k hk => by injection hk with hk; subst hk; rfl) h2
                   have hitems : PushesGN mc hook (ecfg p) (MemoInv p) (b1 ++ b2) [.str (latin1ToUtf8 d), .str (sb "latin1")] s1 s3 := by
                     simpa using PushesGN.append hs1.toN hs2.toN
                   have hargs : PushesG mc hook (ecfg p) (MemoInv p)
@@ -146,7 +146,7 @@ theorem saveBytesS_ok (p : Nat) (s s' : PSt) (key : Option PKey) (d b : Bytes)
 
 /-- `save_bytearray` with the memo, in all its forms. -/
 theorem saveBytearrayS_ok (p : Nat) (s s' : PSt) (key : Option PKey) (d b : Bytes) (hl : d.length < 2 ^ 32)
-    (hkey : ∀ k, key = some k → valOf p k = .bytearray d) (h : saveBytearrayS p s key d = some (b, s')) :
+    (hkey : ∀ k, key = some k → valOf p k = .bytearray d) (h : saveBytearrayS mz p s key d = some (b, s')) :
     PushesG mc hook (ecfg p) (MemoInv p) b (.bytearray d) s s' := by
   have hvp : ∀ (n : Nat) (hp : List HObj) (r : GoVal), RepG mc.cfg n hp r (.bytearray d) → ∀ k, key = some k → r = valOf p k := by
     intro n hp r hr k hk
@@ -170,7 +170,7 @@ theorem saveBytearrayS_ok (p : Nat) (s s' : PSt) (key : Option PKey) (d b : Byte
       | none => simp [hcb] at h
       | some b0 =>
         simp only [hcb] at h
-        cases hput : putS p s key with
+        cases hput : putS mz p s key with
         | none => simp [hput] at h
         | some r =>
           obtain ⟨pb, s1⟩ := r
@@ -178,7 +178,7 @@ theorem saveBytearrayS_ok (p : Nat) (s s' : PSt) (key : Option PKey) (d b : Byte
           obtain ⟨rfl, rfl⟩ := h
           exact (pushesG_bytearray (MemoInv.memoOnly p) s p d b0 hl hcb).put (putOK_S p s s1 key pb hput) hvp
     · simp only [h5, if_false] at h
-      cases hg : saveGlobalS p s .gBytearray (pybuiltinModuleE p) (sb "bytearray") with
+      cases hg : saveGlobalS mz p s .gBytearray (pybuiltinModuleE p) (sb "bytearray") with
       | none => simp [hg] at h
       | some r1 =>
         obtain ⟨g, s1⟩ := r1
@@ -189,7 +189,7 @@ theorem saveBytearrayS_ok (p : Nat) (s s' : PSt) (key : Option PKey) (d b : Byte
         · have hd : d = [] := List.isEmpty_iff.mp hemp
           subst hd
           simp only [List.isEmpty_nil, if_true] at h
-          cases hput : putS p s1 key with
+          cases hput : putS mz p s1 key with
           | none => simp [hput] at h
           | some r2 =>
             obtain ⟨pb, s2⟩ := r2
@@ -203,17 +203,17 @@ theorem saveBytearrayS_ok (p : Nat) (s s' : PSt) (key : Option PKey) (d b : Byte
               exact (C02_bytes_forms st.proto []).2.2.2.1)
             exact hred.put (putOK_S p s1 s2 key pb hput) hvp
         · simp only [hemp, Bool.false_eq_true, if_false] at h
-          cases hb : saveBytesS p s1 none d with
+          cases hb : saveBytesS mz p s1 none d with
           | none => simp [hb] at h
           | some r2 =>
             obtain ⟨bb, s2⟩ := r2
             simp only [hb] at h
-            cases hpt : putS p s2 none with
+            cases hpt : putS mz p s2 none with
             | none => simp [hpt] at h
             | some r3 =>
               obtain ⟨pt, s3⟩ := r3
               simp only [hpt] at h
-              cases hput : putS p s3 key with
+              cases hput : putS mz p s3 key with
               | none => simp [hput] at h
               | some r4 =>
                 obtain ⟨pb, s4⟩ := r4
@@ -256,9 +256,9 @@ theorem eraseList_length : (xs : List PyObjS) → (eraseList xs).length = xs.len
 /-! ### the induction, with the memo -/
 
 section
-variable {mc : MCfg} {hook : Hook}
+variable {mc : MCfg} {hook : Hook} {mz : Option PKey → Bool}
 
-theorem putS_none_ok (p : Nat) (s s' : PSt) (pb : Bytes) (h : putS p s none = some (pb, s')) :
+theorem putS_none_ok (p : Nat) (s s' : PSt) (pb : Bytes) (h : putS mz p s none = some (pb, s')) :
     PutOK mc hook (ecfg p) (MemoInv p) pb (fun _ => True) s s' := by
   refine RunsP.weaken (putOK_S (mc := mc) (hook := hook) (c := ecfg p) p s s' none pb h) ?_ (fun _ _ _ _ q => q)
   intro st ⟨hj, r, rest, hs, hm, _⟩
@@ -267,8 +267,8 @@ theorem putS_none_ok (p : Nat) (s s' : PSt) (pb : Bytes) (h : putS p s none = so
 mutual
 /-- `save(obj)` with the memo: what is written, read by a decoder whose memo is as the pickler's, pushes one value
     representing the object and leaves the memo as the pickler's is afterwards. -/
-theorem sk_val (hlr : mc.listRef = false) (p : Nat) : (v : PyObjS) → (s : PSt) → (b : Bytes) → (s' : PSt) →
-    pkOK mc.cfg p (erase v) → cpSaveS p v s = some (b, s') → PushesG mc hook (ecfg p) (MemoInv p) b (erase v) s s'
+theorem sk_val (hlr : mc.listRef = false) (py : Bool) (p : Nat) : (v : PyObjS) → (s : PSt) → (b : Bytes) → (s' : PSt) →
+    pkOK mc.cfg p (erase v) → cpSaveS mz py p v s = some (b, s') → PushesG mc hook (ecfg p) (MemoInv p) b (erase v) s s'
   | .none, s, b, s', _, hs => by
     simp only [cpSaveS, Option.some.injEq, Prod.mk.injEq] at hs
     obtain ⟨rfl, rfl⟩ := hs
@@ -293,7 +293,12 @@ theorem sk_val (hlr : mc.listRef = false) (p : Nat) : (v : PyObjS) → (s : PSt)
     exact pushesG_float (MemoInv.memoOnly p) s p f (by simpa [erase, pkOK] using hok)
   | .str oid t, s, b, s', _, hs => by
     simp only [cpSaveS] at hs
-    exact saveStrS_ok p s s' (some (.str oid t)) t b (fun k hk => by injection hk with hk; subst hk; rfl) hs
+    refine saveStrS_ok p s s' (some (.str oid t)) (if strCopied py p t then none else some (.str oid t)) t b
+      (fun k hk => by injection hk with hk; subst hk; rfl) ?_ hs
+    intro k hk
+    by_cases hc : strCopied py p t = true
+    · simp [hc] at hk
+    · simp [hc] at hk; subst hk; rfl
   | .bytes oid d, s, b, s', _, hs => by
     simp only [cpSaveS] at hs
     exact saveBytesS_ok p s s' (some (.bytes oid d)) d b (fun k hk => by injection hk with hk; subst hk; rfl) hs
@@ -312,18 +317,18 @@ theorem sk_val (hlr : mc.listRef = false) (p : Nat) : (v : PyObjS) → (s : PSt)
       obtain ⟨rfl, rfl⟩ := hs
       simpa [eraseList] using pushesG_emptyTuple (mc := mc) (hook := hook) p s
     · simp only [hemp, Bool.false_eq_true, if_false] at hs
-      cases hsl : cpSaveListS p xs s with
+      cases hsl : cpSaveListS mz py p xs s with
       | none => simp [hsl] at hs
       | some r =>
         obtain ⟨fs, s1⟩ := r
         simp only [hsl] at hs
-        cases hput : putS p s1 none with
+        cases hput : putS mz p s1 none with
         | none => simp [hput] at hs
         | some r2 =>
           obtain ⟨pb, s2⟩ := r2
           simp only [hput, Option.some.injEq, Prod.mk.injEq] at hs
           obtain ⟨rfl, rfl⟩ := hs
-          have hfr := sk_list hlr p xs s fs s1 hok hsl
+          have hfr := sk_list hlr py p xs s fs s1 hok hsl
           have hi := FragsGN.flatten hfr
           rw [flatten_map_single] at hi
           have hlen : (eraseList xs).length = xs.length := eraseList_length xs
@@ -346,38 +351,38 @@ theorem sk_val (hlr : mc.listRef = false) (p : Nat) : (v : PyObjS) → (s : PSt)
     simp only [erase, pkOK] at hok
     simp only [cpSaveS] at hs
     simp only [erase]
-    cases hput : putS p s none with
+    cases hput : putS mz p s none with
     | none => simp [hput] at hs
     | some r1 =>
       obtain ⟨pb, s1⟩ := r1
       simp only [hput] at hs
-      cases hsl : cpSaveListS p xs s1 with
+      cases hsl : cpSaveListS mz py p xs s1 with
       | none => simp [hsl] at hs
       | some r =>
         obtain ⟨fs, s2⟩ := r
         simp only [hsl, Option.some.injEq, Prod.mk.injEq] at hs
         obtain ⟨rfl, rfl⟩ := hs
-        exact pushesG_list (MemoInv.memoOnly p) hlr p pb (eraseList xs) fs (putS_none_ok p s s1 pb hput) trivial
-          (sk_list hlr p xs s1 fs s2 hok hsl)
+        exact pushesG_list (MemoInv.memoOnly p) hlr py p pb (eraseList xs) fs (putS_none_ok p s s1 pb hput) trivial
+          (sk_list hlr py p xs s1 fs s2 hok hsl)
   | .dict kvs, s, b, s', hok, hs => by
     simp only [erase, pkOK] at hok
     simp only [cpSaveS] at hs
     simp only [erase]
-    cases hput : putS p s none with
+    cases hput : putS mz p s none with
     | none => simp [hput] at hs
     | some r1 =>
       obtain ⟨pb, s1⟩ := r1
       simp only [hput] at hs
-      cases hsl : cpSavePairsS p kvs s1 with
+      cases hsl : cpSavePairsS mz py p kvs s1 with
       | none => simp [hsl] at hs
       | some r =>
         obtain ⟨fs, s2⟩ := r
         simp only [hsl, Option.some.injEq, Prod.mk.injEq] at hs
         obtain ⟨rfl, rfl⟩ := hs
-        exact pushesG_dict (MemoInv.memoOnly p) p pb (erasePairs kvs) fs (putS_none_ok p s s1 pb hput) (fun _ => trivial)
-          (sk_pairs hlr p kvs s1 fs s2 hok.1 hsl) hok.2
-theorem sk_list (hlr : mc.listRef = false) (p : Nat) : (xs : List PyObjS) → (s : PSt) → (fs : List Bytes) → (s' : PSt) →
-    pkOKList mc.cfg p (eraseList xs) → cpSaveListS p xs s = some (fs, s') →
+        exact pushesG_dict (MemoInv.memoOnly p) py p pb (erasePairs kvs) fs (putS_none_ok p s s1 pb hput) (fun _ => trivial)
+          (sk_pairs hlr py p kvs s1 fs s2 hok.1 hsl) hok.2
+theorem sk_list (hlr : mc.listRef = false) (py : Bool) (p : Nat) : (xs : List PyObjS) → (s : PSt) → (fs : List Bytes) → (s' : PSt) →
+    pkOKList mc.cfg p (eraseList xs) → cpSaveListS mz py p xs s = some (fs, s') →
     FragsGN mc hook (ecfg p) (MemoInv p) fs ((eraseList xs).map fun x => [x]) s s'
   | [], s, fs, s', _, hs => by
     simp only [cpSaveListS, Option.some.injEq, Prod.mk.injEq] at hs
@@ -386,21 +391,21 @@ theorem sk_list (hlr : mc.listRef = false) (p : Nat) : (xs : List PyObjS) → (s
   | x :: xs, s, fs, s', hok, hs => by
     simp only [eraseList, pkOKList] at hok
     simp only [cpSaveListS] at hs
-    cases h1 : cpSaveS p x s with
+    cases h1 : cpSaveS mz py p x s with
     | none => simp [h1] at hs
     | some r1 =>
       obtain ⟨b, s1⟩ := r1
       simp only [h1] at hs
-      cases h2 : cpSaveListS p xs s1 with
+      cases h2 : cpSaveListS mz py p xs s1 with
       | none => simp [h2] at hs
       | some r2 =>
         obtain ⟨fs2, s2⟩ := r2
         simp only [h2, Option.some.injEq, Prod.mk.injEq] at hs
         obtain ⟨rfl, rfl⟩ := hs
         simp only [eraseList, List.map_cons, FragsGN]
-        exact ⟨s1, (sk_val hlr p x s b s1 hok.1 h1).toN, sk_list hlr p xs s1 fs2 s2 hok.2 h2⟩
-theorem sk_pairs (hlr : mc.listRef = false) (p : Nat) : (kvs : List (PyObjS × PyObjS)) → (s : PSt) → (fs : List Bytes) → (s' : PSt) →
-    pkOKPairs mc.cfg p (erasePairs kvs) → cpSavePairsS p kvs s = some (fs, s') →
+        exact ⟨s1, (sk_val hlr py p x s b s1 hok.1 h1).toN, sk_list hlr py p xs s1 fs2 s2 hok.2 h2⟩
+theorem sk_pairs (hlr : mc.listRef = false) (py : Bool) (p : Nat) : (kvs : List (PyObjS × PyObjS)) → (s : PSt) → (fs : List Bytes) → (s' : PSt) →
+    pkOKPairs mc.cfg p (erasePairs kvs) → cpSavePairsS mz py p kvs s = some (fs, s') →
     FragsGN mc hook (ecfg p) (MemoInv p) fs ((erasePairs kvs).map fun kv => [kv.1, kv.2]) s s'
   | [], s, fs, s', _, hs => by
     simp only [cpSavePairsS, Option.some.injEq, Prod.mk.injEq] at hs
@@ -409,25 +414,25 @@ theorem sk_pairs (hlr : mc.listRef = false) (p : Nat) : (kvs : List (PyObjS × P
   | (k, v) :: kvs, s, fs, s', hok, hs => by
     simp only [erasePairs, pkOKPairs] at hok
     simp only [cpSavePairsS] at hs
-    cases h1 : cpSaveS p k s with
+    cases h1 : cpSaveS mz py p k s with
     | none => simp [h1] at hs
     | some r1 =>
       obtain ⟨bk, s1⟩ := r1
       simp only [h1] at hs
-      cases h2 : cpSaveS p v s1 with
+      cases h2 : cpSaveS mz py p v s1 with
       | none => simp [h2] at hs
       | some r2 =>
         obtain ⟨bv, s2⟩ := r2
         simp only [h2] at hs
-        cases h3 : cpSavePairsS p kvs s2 with
+        cases h3 : cpSavePairsS mz py p kvs s2 with
         | none => simp [h3] at hs
         | some r3 =>
           obtain ⟨fs3, s3⟩ := r3
           simp only [h3, Option.some.injEq, Prod.mk.injEq] at hs
           obtain ⟨rfl, rfl⟩ := hs
           simp only [erasePairs, List.map_cons, FragsGN]
-          refine ⟨s2, ?_, sk_pairs hlr p kvs s2 fs3 s3 hok.2.2 h3⟩
-          have := PushesGN.append (sk_val hlr p k s bk s1 hok.1 h1).toN (sk_val hlr p v s1 bv s2 hok.2.1 h2).toN
+          refine ⟨s2, ?_, sk_pairs hlr py p kvs s2 fs3 s3 hok.2.2 h3⟩
+          have := PushesGN.append (sk_val hlr py p k s bk s1 hok.1 h1).toN (sk_val hlr py p v s1 bv s2 hok.2.1 h2).toN
           simpa using this
 end
 
